@@ -195,6 +195,9 @@ def run(ctx):
         # and of running whatever was built on a nil context, the mock tree and a failing tree
         import fam_xgrammar
         tot = fam_xgrammar.totality(ctx, ctx.tier)
+        # custom functions: a panicking function, a function without default value, symbols that cannot run
+        import fam_xfuncs
+        tot["function_table"] = fam_xfuncs.stage(ctx, "C05")
     cov = dict(
         totality=tot,
         evaluations=nvec + (tot["builds"] if tot else 0), distinct_nontrivial=len(distinct),
@@ -237,6 +240,6 @@ MANIFEST = {
              "at the failing instruction with that error and no value. Totality: every character string to a bounded length over 25 character classes "
              "(incl. invalid UTF-8, unterminated literals, stray characters) and every token sequence enumerated by XPathGrammarGen is fed to all three grammars "
              "(expr, path_eval, leafref) under a panic trap: machine xor error, the error quotes the expression and marks a split position; every machine built is run on a nil "
-             "context, the mock tree and a failing tree: value xor error, no panic.",
+             "context, the mock tree and a failing tree: value xor error, no panic. Custom functions that panic, lack a default value or cannot run (XPathFuncs.tla behaviours replayed by xp funcs) must end in a value or an error.",
              note="an error whose text still contains the tree's error counts as carrying it (Deref re-wraps FollowLeafRef errors)", design="4 C05", technique=XP),
 }
